@@ -648,7 +648,7 @@ theorem step_inv (dry : Nat → Bool) (adm : Job → Path → Prop)
     (st st' : State) (evs : List Ev) (h : Step adm st evs st') (s : Ack.S) (hi : AInv dry st s) :
     ∃ s', runOn (Ack.step dry) s evs = .ok s' ∧ AInv dry st' s' := by
   cases h with
-  | item pre post j rg dn x rest hp hen =>
+  | item pre post j rg dn x rest hp hen hq =>
     have hmemP : (⟨j, rg, dn, true, x :: rest⟩ : Proc) ∈ st.procs := by rw [hp]; simp
     obtain ⟨ph, hP⟩ := hi.procs _ hmemP
     obtain ⟨ph', hph, hrest⟩ := arun_cons_some j.req.kind ph x rest (hP.rest rfl)
